@@ -57,15 +57,17 @@ def env(**kv):
 
 
 @contextlib.contextmanager
-def quiet():
-    """Per-node stderr buffer (the rich logger follows the live sys.stderr)."""
+def quiet(stdout=False):
+    """Per-node stderr (and optionally stdout) buffer (the rich logger follows the live streams)."""
     buf = io.StringIO()
-    old = sys.stderr
+    old = sys.stderr, sys.stdout
     sys.stderr = buf
+    if stdout:
+        sys.stdout = buf
     try:
         yield buf
     finally:
-        sys.stderr = old
+        sys.stderr, sys.stdout = old
 
 
 def fresh_report():
